@@ -746,3 +746,119 @@ Definition decode_file (t : tree) : option (list wstmt) :=
       if tree_eqb (file_tree pre mk stmts) t then Some stmts else None
   | _ => None
   end.
+
+(* ========================================================================================== closed forms per fragment
+   (what the description must contain, read off the statements of the file; used by the C19_roundtrip_<fragment> theorems) *)
+
+(* ---- the result of the code after the statement loop, as a formula *)
+Definition final_desc (s : st) : desc :=
+  let g := match s_legacy s with Some prm => set_prm prm (s_gsd s) | None => s_gsd s end in
+  let g := if s_maxspan s then g else set_num NF_max_modules 1 g in
+  if d_flag g BF_modular_station then g else set_num NF_max_modules 1 g.
+
+(* ---- top-level settings of a file *)
+Definition sets_of (stmts : list wstmt) : list wset :=
+  flat_map (fun x => match x with WSetS s => [s] | _ => [] end) stmts.
+
+(* the scalar field a setting writes (Modular_Station and Max_Module included; speed flags are or-ed) *)
+Definition set_target (x : wset) : list target :=
+  match set_action x with
+  | Some (ANum f) => [TNum f]
+  | Some (AStr f) => [TStr f]
+  | Some (ABool f) => [TFlag f]
+  | Some (ASpecial SP_modular_station) => [TFlag BF_modular_station]
+  | Some (ASpecial SP_max_module) => [TNum NF_max_modules]
+  | _ => []
+  end.
+Definition set_targets (l : list wset) : list target := flat_map set_target l.
+
+(* what a scalar setting says about the final description *)
+Definition set_says (d : desc) (x : wset) : Prop :=
+  match set_action x, se_val x with
+  | Some (ANum f), VNum n => d_num d f = wnum_value n
+  | Some (AStr f), VStr w => d_str d f = wstr_value w
+  | Some (ABool f), VNum n => d_flag d f = truth n
+  | Some (ASpecial SP_modular_station), VNum n => d_flag d BF_modular_station = truth n
+  | Some (ASpecial SP_max_module), VNum n =>
+      d_num d NF_max_modules = if d_flag d BF_modular_station then wnum_value n else 1   (* a compact station has one module *)
+  | _, _ => True
+  end.
+Definition speeds_said (l : list wset) : Z :=
+  fold_left (fun acc x =>
+               match set_action x, se_val x with
+               | Some (ASpeed m), VNum n => if truth n then Z.lor acc m else acc
+               | _, _ => acc
+               end) l 0.
+
+(* ---- parameter texts and definitions of a file, in file order (looked up with zmap_get = first match) *)
+Definition texts_of (stmts : list wstmt) : list (Z * list (str * Z)) :=
+  flat_map (fun x => match x with WText id es => [(wnum_value id, table_of es)] | _ => [] end) stmts.
+Definition defs_with (texts : list (Z * list (str * Z))) (stmts : list wstmt) : list (Z * prmdef) :=
+  flat_map (fun x => match x with WDef d => [(wnum_value (wd_id d), wdef_den texts d)] | _ => [] end) stmts.
+Definition defs_of (stmts : list wstmt) : list (Z * prmdef) := defs_with (texts_of stmts) stmts.
+
+Fixpoint nodupz (l : list Z) : bool :=
+  match l with
+  | [] => true
+  | a :: r => negb (existsb (Z.eqb a) r) && nodupz r
+  end.
+(* every PrmText id and every ExtUserPrmData id is defined once *)
+Definition ids_unique (stmts : list wstmt) : bool :=
+  nodupz (map fst (texts_of stmts)) && nodupz (map fst (defs_of stmts)).
+
+(* ---- station-level user parameter data *)
+Inductive prmline : Type :=
+| PLRef (off id : Z) | PLConst (off : Z) (v : list Z) | PLMax | PLLen (n : Z) | PLData (v : list Z).
+Definition set_prmline (x : wset) : list prmline :=
+  match set_action x, se_idx x, se_val x with
+  | Some (ASpecial SP_ext_user_prm_data_ref), Some off, VNum id => [PLRef (wnum_value off) (wnum_value id)]
+  | Some (ASpecial SP_ext_user_prm_data_const), Some off, v =>
+      match as_numlist v with Some l => [PLConst (wnum_value off) (map wnum_value l)] | None => [] end
+  | Some (ASpecial SP_max_user_prm_data_len), _, _ => [PLMax]
+  | Some (ASpecial SP_user_prm_data_len), None, VNum n => [PLLen (wnum_value n)]
+  | Some (ASpecial SP_user_prm_data), None, v =>
+      match as_numlist v with Some l => [PLData (map wnum_value l)] | None => [] end
+  | _, _, _ => []
+  end.
+Definition prmlines_of (stmts : list wstmt) : list prmline := flat_map set_prmline (sets_of stmts).
+Definition is_ext (p : prmline) : bool := match p with PLRef _ _ | PLConst _ _ | PLMax => true | _ => false end.
+(* Ext_ style: the references (resolved in defs) and constants in file order; length 0 *)
+Definition ext_prm (defs : list (Z * prmdef)) (l : list prmline) : userprm :=
+  fold_left (fun p x =>
+               match x with
+               | PLRef off id => match zmap_get id defs with Some d => push_ref p off d | None => p end
+               | PLConst off v => push_const p off v
+               | _ => p
+               end) l prm_default.
+(* legacy style: the last User_Prm_Data_Len and every User_Prm_Data line *)
+Definition legacy_prm (l : list prmline) : userprm :=
+  fold_left (fun p x =>
+               match x with
+               | PLLen n => mkPrm n (up_const p) (up_ref p)
+               | PLData v => push_const p 0 v
+               | _ => p
+               end) l prm_default.
+Definition prm_said (defs : list (Z * prmdef)) (l : list prmline) : userprm :=
+  if existsb is_ext l then ext_prm defs l else legacy_prm l.
+
+(* ---- modules and slots *)
+Definition modules_of (stmts : list wstmt) : list wmodule :=
+  flat_map (fun x => match x with WModule m => [m] | _ => [] end) stmts.
+Definition slots_of (stmts : list wstmt) : list wslot :=
+  flat_map (fun x => match x with WSlots _ l => l | _ => [] end) stmts.
+Definition is_module (x : wstmt) : bool := match x with WModule _ => true | _ => false end.
+(* no Module block after a SlotDefinition block *)
+Fixpoint modules_first (l : list wstmt) : bool :=
+  match l with
+  | [] => true
+  | WSlots _ _ :: r => negb (existsb is_module r) && modules_first r
+  | _ :: r => modules_first r
+  end.
+(* what a slot says, given all modules of the file: the first module with the default reference, and the
+   modules found for the allowed references in the order they are written / enumerated *)
+Definition slot_den (ms : list module) (sl : wslot) : option slot :=
+  match find_module ms (wnum_value (wl_default sl)) with
+  | Some dflt => Some (mkSlot (wstr_value (wl_name sl)) (wnum_value (wl_num sl)) dflt
+                              (fst (find_all ms (wspec_refs (wl_spec sl)) 0)))
+  | None => None
+  end.
